@@ -14,6 +14,7 @@ pub mod c14;
 pub mod c15;
 pub mod c16;
 pub mod c17;
+pub mod c18;
 pub mod families;
 
 use crate::drivers::Case;
@@ -39,6 +40,7 @@ pub fn run_check(id: &str, tier: &str, seed: u64) -> Option<i32> {
         "C15" => c15::run(tier, seed),
         "C16" => c16::run(tier, seed),
         "C17" => c17::run(tier, seed),
+        "C18" => c18::run(tier, seed),
         _ => return None,
     })
 }
@@ -63,6 +65,7 @@ pub fn replay(replay: &Value) -> Result<Vec<Violation>, String> {
         "C11" | "C11-sim" => c11::replay(replay)?,
         "C16" => c16::replay(replay)?,
         "C17" => c17::replay(replay)?,
+        "C18" => c18::replay(&case_of(replay)?),
         "C12" => c12::replay(replay)?,
         "C13" => c13::replay(replay)?,
         "C14" => c14::replay(replay)?,
